@@ -115,7 +115,16 @@ def _run(cfg, V, r, ds, rec, labels):
         element = next(e for e in els if getattr(e, 'name', None) == name)
         for rev in (False, True):
             labels.clear()
+            n0 = len(rec.calls)
             S.draw_voltage(name, reverse=rev); S.draw_current(name, reverse=rev); S.draw_power(name, reverse=rev)
+            drawn = rec.calls[n0:]
+            if len(drawn) == 3:
+                for (fn, val, o), q in zip(drawn, ('get_voltage', 'get_current', 'get_power')):
+                    want = getattr(base, q)(name)
+                    want = -want if rev else want
+                    obs.append(Ob(f'draw_{q[4:]}({name}, reverse={rev}) annotates the circuit quantity (element reversed={element.is_reverse})', val - want, [want, 1]))
+            else:
+                obs.append(Ob('each draw_* formats exactly one number', 1))
             kinds = [l[0] for l in labels]
             obs.append(Ob('draw_* create one label each', 0 if kinds == ['VoltageLabel', 'CurrentLabel', 'PowerLabel'] else 1))
             if kinds == ['VoltageLabel', 'CurrentLabel', 'PowerLabel']:
